@@ -458,6 +458,15 @@ fn do_yield(site: &'static str, force: bool) {
     debug_assert_eq!(st.baton, m);
     note(&mut st, m, site);
     if st.step > st.step_cap {
+        // a thread that is the only runnable one and has been taking every step for the whole ring is spinning
+        // without contention: nothing another thread does can ever end its loop
+        let solo = st.ring.len() == 256
+            && st.ring.iter().all(|(_, t, _)| *t == m)
+            && st.threads.iter().enumerate().all(|(i, t)| i == m || !matches!(t.status, Status::Runnable));
+        if solo {
+            let why = format!("step-cap:solo-spin thread {m} ({}) is the only runnable thread and loops at {site}", st.threads[m].name);
+            abort(st, &why);
+        }
         abort(st, "step-cap");
     }
     match pick(&mut st, m, true, site) {
